@@ -20,6 +20,7 @@ func init() {
 		Assumptions: []string{"math.Abs/Min/Max, time.Time.Sub/Before have their mathematical meaning"},
 		Run:         runC16,
 		Controls: []Control{
+			{Name: "no-duplicates-by-proto-equal", File: "pkg/resource/opt.go", Old: "func WithNoDuplicates() Option {\n\treturn WithMessageEquivalence(cmp.Equal())", New: "func WithNoDuplicates() Option {\n\treturn WithMessageEquivalence(proto.Equal)", Expect: "R16.8"},
 			{Name: "identity-shortcut-by-subtraction", File: "pkg/cmp/number.go", Old: "\t\tif fx == fy || (math.IsNaN(fx) && math.IsNaN(fy)) {", New: "\t\tif fx-fy == 0 || (math.IsNaN(fx) && math.IsNaN(fy)) {", Expect: "R16.6"},
 			{Name: "held-fallback-inverted", File: "pkg/resource/collection.go", Old: "\t\t\t\tlast, ok := held[change.Id]\n\t\t\t\tif !ok {\n", New: "\t\t\t\tlast, ok := held[change.Id]\n\t\t\t\tif ok {\n", Expect: "the held value is used when there is one"},
 			{Name: "list-comparison-skips-the-first-element", File: "pkg/cmp/cmp.go", Old: "\tfor i := x.Len() - 1; i >= 0; i-- {\n", New: "\tfor i := x.Len() - 1; i > 0; i-- {\n", Expect: "R16.7"},
@@ -66,6 +67,8 @@ func runC16(c *an.Ctx) {
 	c.Min("R16.2", 4)
 	c.Min("R16.3", 4)
 	c.Min("R16.6", 1)
+	r168(c, "R16.8")
+	c.Min("R16.8", 1)
 	r167(c, "R16.7")
 	c.Min("R16.7", 1)
 	c.Min("R16.4", 6)
@@ -1837,4 +1840,27 @@ func r167(c *an.Ctx, rule string) {
 	}
 	c.Check(ok, rule, name+"|every index is compared, index 0 included", pos, fmt.Sprintf("%d bound(s) on the index admit 0", n),
 		"the loop over the list elements stops above index 0: the first elements of two lists are never compared, so lists that differ only there count as equal (proto.Equal says they differ) and a change of the first item of a repeated field is suppressed as a duplicate")
+}
+
+// r168: "no duplicates" means no EQUIVALENT values in the module's own sense - cmp.Equal(), which leaves out what the
+// default comparer documents as not part of a value (the change_time carried inside Change messages). proto.Equal is
+// not the same relation: with it a write that differs only there is announced again. WithNoDuplicates configures the
+// equivalence cmp.Equal() builds.
+func r168(c *an.Ctx, rule string) {
+	fn := mustFunc(c, rule, resPkg, "", "WithNoDuplicates")
+	if fn == nil {
+		return
+	}
+	name := an.FuncName(fn)
+	c.SawFunc(name)
+	uses := false
+	for _, f := range append([]*ssa.Function{fn}, an.TransparentCalleesOf(fn, 1)...) {
+		an.Instrs(f, func(in ssa.Instruction) {
+			if call, ok := in.(*ssa.Call); ok && strings.HasSuffix(an.CalleeName(call), "pkg/cmp.Equal") {
+				uses = true
+			}
+		})
+	}
+	c.Check(uses, rule, name+"|uses the module's default comparer", fn.Pos(), "cmp.Equal()",
+		"WithNoDuplicates does not build its equivalence with cmp.Equal(): values the default comparer calls equal (differing only in a Change's change_time) are delivered again")
 }
